@@ -18,6 +18,7 @@ func usage() {
   govc ssa <key>                  print the SSA of a function
   govc check <ID> [--tier quick|thorough]   decide a property (claims/<ID>.json)
   govc vc <key>... [--all]        run the proof tier on some functions (development)
+  govc replay <ID> <replay.json>  re-decide the obligation of a replay file on the current tree
   govc names                      record variable names of the functions under contract (claims/names.json)`)
 	os.Exit(2)
 }
@@ -73,6 +74,8 @@ func main() {
 		fmt.Println("recorded", n, "functions")
 	case "check":
 		os.Exit(cmdCheck(os.Args[2:]))
+	case "replay":
+		os.Exit(cmdReplay(os.Args[2:]))
 	case "vc":
 		os.Exit(cmdVC(os.Args[2:]))
 	default:
